@@ -99,6 +99,8 @@ type zOp struct {
 	Sub     []zMapping `json:"sub,omitempty"`    // descriptor_map of the submission under test
 	Decode  []zDecode  `json:"decode,omitempty"`
 	Mut     string     `json:"mut,omitempty"`    // which mutation produced the submission (statistics only)
+	// vpformat: keys of the verifier's vp_formats metadata handed to ChooseVPFormat
+	Supported []string `json:"supported,omitempty"`
 	// nildef: a definition unmarshalled WITHOUT schema validation (null entries become nil pointers)
 	NilRaw string      `json:"nilRaw,omitempty"` // JSON text (replay)
 	RawDef interface{} `json:"rawDef,omitempty"` // for the model: descs / srs with nulls, nestedNull
@@ -1609,6 +1611,8 @@ func (r *zRun) replayFile(path string) {
 			if live {
 				r.opNilDef(op.NilRaw, op.Wallet)
 			}
+		case "vpformat":
+			r.opVPFormat(op.Supported)
 		}
 	}
 }
@@ -1664,6 +1668,16 @@ func TestVerifC12(t *testing.T) {
 		if c%25 == 7 {
 			r.ecmaCase(rng)
 			continue
+		}
+		if c%40 == 3 {
+			// ChooseVPFormat on a random subset of metadata keys (in random order; nil map included)
+			keys := []string{}
+			for _, k := range rng.Perm(len(zVPFormatKeys)) {
+				if rng.Intn(3) == 0 {
+					keys = append(keys, zVPFormatKeys[k])
+				}
+			}
+			r.opVPFormat(keys)
 		}
 		if c%500 == 250 {
 			// definitions with nil entries, against the credentials of a small case
@@ -2022,6 +2036,20 @@ func (r *zRun) ecmaCase(rng *rand.Rand) {
 	w := rng.Perm(k)
 	r.opMatch(w)
 	r.walletFlow(rng, w, k)
+}
+
+var zVPFormatKeys = []string{"jwt_vp", "jwt_vp_json", "ldp_vp", "ldp_vc", "jwt_vc", "jwt_vc_json", "", "JWT_VP", "ldp"}
+
+func (r *zRun) opVPFormat(keys []string) {
+	var m map[string]map[string][]string
+	if len(keys) > 0 {
+		m = map[string]map[string][]string{}
+		for _, k := range keys {
+			m[k] = map[string][]string{"alg_values_supported": {"ES256"}}
+		}
+	}
+	r.stats["vpformat"]++
+	r.emit(zOp{Op: "vpformat", Supported: keys}, "vpformat "+ChooseVPFormat(m))
 }
 
 // hostileRegexCase: a verifier-chosen pattern with catastrophic backtracking on a wallet value; only Match is run, under the watchdog
